@@ -42,7 +42,10 @@ def check_spelleq(run, vecs):
             for name, b in (("CR", b"\r"), ("LF", b"\n"), ("TAB", b"\t")):
                 if b in s:
                     seps.append(name)
-            run.mismatch("C14 %s [snippet %s; %s]" % (why, v.get("snip"), "+".join(seps) or "blank/none"), v, why,
+            sig = "C14 %s [snippet %s; %s]" % (why, v.get("snip"), "+".join(seps) or "blank/none")
+            if v.get("snip") == "inner-quote":
+                sig = "C14 inner-quote: double quotes around a string inside the interpolation of a double-quoted string"
+            run.mismatch(sig, v, why,
                          expected={"src": common.show(bytes(v["canon"])), "out": common.show(bytes(ob["canon"]["out"]))},
                          observed={"src": src, "parse_ok": ob["spelled"]["parse_ok"], "err": ob["spelled"].get("err"),
                                    "out": common.show(bytes(ob["spelled"]["out"]))})
@@ -84,6 +87,15 @@ def check(run, only=None):
         v["id"] = "C14-%d" % n          # the spec's ids are not unique per re-spelling
     check_spelleq(run, r["lines"])
     run.traces += len(r["lines"])
+    # quote choice for a string WITHOUT interpolation that stands inside the interpolation of another string (written out here:
+    # the tokeniser model of Lexer.tla follows the code's way of finding the closing quote, so TLC cannot generate these)
+    quoted = []
+    for i, (a, b) in enumerate([("{{ \"a#{ h['k'] }b\" }}", "{{ \"a#{ h[\"k\"] }b\" }}"),
+                                ("{{ \"#{ f('x', 'y') }\" }}", "{{ \"#{ f(\"x\", 'y') }\" }}"),
+                                ("{% set s = \"<#{ 'v'|f }>\" %}{{ s }}", "{% set s = \"<#{ \"v\"|f }>\" %}{{ s }}")]):
+        quoted.append({"id": "C14-q%d" % i, "k": "spelleq", "canon": list(a.encode()), "spelled": list(b.encode()), "snip": "inner-quote", "nvar": 1})
+    check_spelleq(run, quoted)
+    run.traces += len(quoted)
     rng = random.Random(run.seed)
     extra = []
     for module, cfg in (("C06", "C06"), ("C07", "C07"), ("C10", "C10"), ("C11", "C11")):
